@@ -1,5 +1,5 @@
 """Per-property configuration: which streams are run, what is trusted."""
-from . import gens
+from . import gens, core
 
 KERNEL = "Coq 8.16.1 kernel (coqc; coqchk re-check in the thorough tier); no native_compute; no axioms (Print Assumptions: Closed under the global context)"
 EXTRACTION = "Coq extraction with ExtrOcamlBasic only (no Extract Constant/Inductive of our own); OCaml driver ocaml/{util,driver}.ml (parser/printer)"
@@ -528,9 +528,15 @@ PROPS["C16"] = dict(
 def c20_streams(tier, rng):
     q = tier == "quick"
     n = 4000 if q else 150000
-    return [Stream("ledger", "own", gens.own_cases(rng, n), lambda c, o: True, False,
-                   "%d seeded random histories (vector mutators, entry traversals, transactions, subscribers of both flavours with and without adapter stacks head/tail/skip/filter/sort, lag, drops in any order, an Observable turned SharedObservable with clones and subscribers) run with an instrumented element type: instance ledger checks no second drop, no read after drop, nothing alive at the end" % n,
-                   lambda c, o: c.split(" :: ")[0], oracles={"nodoubledrop", "noleak", "usealive"})]
+    st = [Stream("ledger", "own", gens.own_cases(rng, n), lambda c, o: True, False,
+                 "%d seeded random histories (vector mutators, entry traversals, transactions with subscribers polled / dropped while they are open, subscribers of both flavours with and without adapter stacks head/tail/skip/filter/sort, lag, drops in any order, an Observable turned SharedObservable with clones and subscribers) run with an instrumented element type: instance ledger checks no second drop, no read after drop, nothing alive at the end" % n,
+                 lambda c, o: c.split(" :: ")[0], oracles={"nodoubledrop", "noleak", "usealive"})]
+    if not q and core.miri_available():
+        m = 96
+        st.append(Stream("ledger-under-miri", "own", gens.own_cases(rng, m), lambda c, o: True, False,
+                         "%d of the same histories with the harness interpreted by miri (nightly, -Zmiri-tree-borrows; Stacked Borrows is not used because imbl-sized-chunks 0.1.3 InlineArray::remove, a dependency, violates it on its own): any undefined behaviour or leak that miri reports in ReusableBoxFuture::set, Observable::into_shared, the YieldBatch swap or anywhere else on these paths aborts the run and is reported as oracle miri" % m,
+                         lambda c, o: c.split(" :: ")[0], hook="miri", oracles={"nodoubledrop", "noleak", "usealive", "miri"}))
+    return st
 
 
 PROPS["C20"] = dict(
@@ -596,10 +602,10 @@ def conc_streams(orc, with_lin=False, with_seq=None):
 
 
 PROPS.update({
-    "C02": dict(streams=conc_streams({"wake", "nopanic"}, with_seq=({"wake"}, proj_obs("wake"))), hook=True, trusted=CONC_TRUST,
+    "C02": dict(streams=conc_streams({"wake", "nopanic"}, with_seq=({"wake", "nosuspend"}, proj_obs("wake"))), hook=True, trusted=CONC_TRUST,
                 assumptions=["locks behave as modelled; sequentially consistent steps"],
                 strength="full for the protocol as modelled (operation granularity + lock granularity); partial w.r.t. the runtime: lock implementation, memory ordering and OS scheduling are assumed / sampled",
-                level_text="Coq theorems at operation granularity (any history: a Pending poll registers its waker; every version change wakes the whole list and empties it; a registered waker stays registered until woken) and, once the micro-step model's proofs are in, at lock granularity for every schedule. Tied to the crate at operation granularity by the C01 histories with wake counters compared after every call, and at thread granularity by forced schedules over pause points inside poll/set/close/drop/upgrade (exhaustive for two-thread configurations) with real threads.",
+                level_text="Coq theorems at operation granularity (any history: a Pending poll registers its waker; every version change wakes the whole list and empties it; a registered waker stays registered until woken) and, once the micro-step model's proofs are in, at lock granularity for every schedule. Tied to the crate at operation granularity by the C01 histories with wake counters compared after every call (and the oracle that the implementation never answers Pending where the specification has an update or the end of the stream to deliver), and at thread granularity by forced schedules over pause points inside poll/set/close/drop/upgrade (exhaustive for two-thread configurations) with real threads.",
                 level_note="Trusted: Coq kernel, extraction, harness; std RwLock/Arc as modelled; the director's timeouts. PARTIAL w.r.t. the runtime (see strength)."),
     "C03": dict(streams=conc_streams({"notearly", "ended", "nopanic"}, with_seq=({"endspec"}, proj_obs("end"))), hook=True, trusted=CONC_TRUST,
                 assumptions=["locks and Arc counters behave as modelled"],
